@@ -294,7 +294,15 @@ func (l *Loaded) verifyFunc(r *Runner, fn *ssa.Function, sp *FuncSpec) (res *FnR
 	r.reach(st, "entry")
 	r.work = append(r.work, st)
 	r.csEvaluated = map[string]bool{}
+	r.beforeHit = map[string]bool{}
 	r.run()
+	for callee, cs := range sp.Before {
+		for _, c := range cs {
+			if !r.beforeHit[callee+"."+c.Label] {
+				panic(specErr{"before clause [" + c.Label + "]: no call of a contracted function " + callee + " was reached"})
+			}
+		}
+	}
 	for _, c := range sp.CSEnsures {
 		if !r.csEvaluated[c.Label] {
 			panic(specErr{"critical-section clause [" + c.Label + "] could not be evaluated on any path (unresolved identifier or no lock released)"})
